@@ -12,6 +12,7 @@ SHARED = {
     "Finite": ["C01", "C02"],
     "DDef": ["C01", "C07", "C19"],
     "DDef2": ["C01"],
+    "DHom": ["C07", "C19", "C04"],
     "W3jBounds": ["C05"],
     "FlatSteps": ["C01", "C08", "C15"],
 }
